@@ -414,7 +414,12 @@ def run(tier):
         q = GraphQLObjectType("Query", {"f": GraphQLField(GraphQLInt, args={
             "a": GraphQLArgument(ty, default=GraphQLDefaultInput(value=v))})})
         probes.append((f"default-probe:{ty}:{v!r}", GraphQLSchema(q)))
-    n_probes = len(probes) if quick else len(probes)
+    # Python representations of default values (defaults travel as printed text through introspection)
+    quick_keys = ("nested", "Int:100.0", "Int:2000.0", "Int:-0.0", "[Int]:(1, 2.0)", "[Int]:5.0", "Float:3:", "ID:12.0")
+    for key, sch in G.representation_probes():
+        if not quick or any(k in key for k in quick_keys):
+            probes.append((key, sch))
+    n_probes = len(probes)
     for i in range(-n_probes, n_schemas):
         cases, meta = [], []
         if i < 0:
@@ -447,8 +452,8 @@ def run(tier):
             ck.violation(key0, f"introspection_from_schema (all options) raised {type(e).__name__}: {e}", rep0)
             continue
         # -- option combinations
-        if mode == "probe":
-            combos = [all_combos[0], all_combos[-1], all_combos[37], all_combos[90]]
+        if mode == "probe":   # minimal schemas: the client round trip is what they are for; keep them cheap
+            combos = [all_combos[0], all_combos[-1]]
         elif quick:
             combos = [all_combos[0], all_combos[-1]]
             combos += [dict({k: True for k in OPTS}, **{k: False}) for k in OPTS]
@@ -496,14 +501,14 @@ def run(tier):
             if e:
                 ck.violation(key, f"result does not conform to the introspection types: {e}", rep)
             # extracted model: introspect and prune (on a subset in quick to bound the model time)
-            if (ci < 6 or ci % 3 == 0) if quick else (ci + i) % 4 == 0:
+            if (ci == 0 if mode == "probe" else (ci < 6 or ci % 3 == 0)) if quick else (ci + i) % 4 == 0:
                 cases.append([8] + bits + enc)
                 meta.append((key, rep, "Introspect.introspect(enc s, o)", r))
                 cases.append([9] + bits + wfull)
                 meta.append((key, rep, "Introspect.prune o (full result)", r))
         # -- single type lookups
         by_name = {t["name"]: t for t in full["__schema"]["types"]}
-        for name in list(s.type_map) + ["NoSuchType", ""]:
+        for name in (["Query", "NoSuchType"] if mode == "probe" and quick else list(s.type_map) + ["NoSuchType", ""]):
             res = graphql_sync(s, lookup_query, variable_values={"n": name})
             key = f"{key0}:lookup:{name}"
             if res.errors:
@@ -518,7 +523,7 @@ def run(tier):
         meta.append((f"{key0}:lookup:{tn}", rep0, "Introspect.type_lookup", by_name[tn]))
         # -- ad-hoc selections
         ad = Adhoc(rng, full)
-        for _ in range(2 if mode == "probe" else 6 if quick else 12):
+        for _ in range(1 if mode == "probe" else 6 if quick else 12):
             q, want = ad.query()
             key = f"{key0}:adhoc:{q}"
             rep = dict(rep0, query=q)
